@@ -216,7 +216,17 @@ fn mutate_tokens(t: &mut Tape, printed: &gen::print::Printed) -> Vec<u8> {
             break;
         }
         let i = t.below(toks.len());
-        match t.below(6) {
+        match t.below(7) {
+            6 => {
+                // drop a declaration keyword (`var x = 1;` becomes an assignment to an undeclared name,
+                // `signal input a;` an expression statement): still accepted by the grammar
+                let kws: Vec<usize> = toks.iter().enumerate().filter(|(_, x)| matches!(x.as_str(), "var" | "signal" | "component")).map(|(k, _)| k).collect();
+                if !kws.is_empty() {
+                    toks.remove(kws[t.below(kws.len())]);
+                } else {
+                    toks.remove(i);
+                }
+            }
             0 => {
                 toks.remove(i);
             }
@@ -524,7 +534,7 @@ pub fn run(ctx: &Ctx) -> i32 {
         &outcome,
         EvidenceSpec {
             level: "exploration",
-            rule: "the real release binary is run (RLIMIT_CPU 120 s, RLIMIT_AS 4 GiB, cleared environment) on generated projects of 1-3 files x random supported options (curve, level, verbose, SARIF, allow list): (a) byte strings (raw bytes, ASCII, token soup over the grammar's terminals), (b) grammar-valid files — `wild` files using every production with no semantic discipline and semantically valid files, both under random layouts with comments/CRLF/non-ASCII, (d) small inputs (< 8 KiB) with one deeply nested construct — 16 shapes (operator chains in both directions, Horner, conditional expressions, prefix operators, array indices, calls, if/else-if/blocks/loops, parentheses, array literals, tuples, anonymous components) at depth 10..400 (array indices 40, loops 12, anonymous components 60), (c) near-valid inputs = 1-3 token-level mutations (delete, duplicate, swap, replace/insert a terminal, truncate, splice raw or invalid UTF-8 bytes) of (b); plus replay of all committed seed/reproducer files under all three curves. Clean termination = exit 0 or 1 by itself, last stdout line is the summary, status matches the summary, no `panicked at` / stack overflow / allocation failure / signal; a resource-limit hit is re-run with 4x budget before it counts. Non-trivial = distinct input (content hash) that reached the analysis stage (>= 1 `analyzing` line).",
+            rule: "the real release binary is run (RLIMIT_CPU 120 s, RLIMIT_AS 4 GiB, cleared environment) on generated projects of 1-3 files x random supported options (curve, level, verbose, SARIF, allow list): (a) byte strings (raw bytes, ASCII, token soup over the grammar's terminals), (b) grammar-valid files — `wild` files using every production with no semantic discipline and semantically valid files, both under random layouts with comments/CRLF/non-ASCII, (d) small inputs (< 8 KiB) with one deeply nested construct — 16 shapes (operator chains in both directions, Horner, conditional expressions, prefix operators, array indices, calls, if/else-if/blocks/loops, parentheses, array literals, tuples, anonymous components) at depth 10..400 (array indices 40, loops 12, anonymous components 60), (c) near-valid inputs = 1-3 token-level mutations (delete, duplicate, swap, replace/insert a terminal, truncate, drop a declaration keyword, splice raw or invalid UTF-8 bytes) of (b); plus replay of all committed seed/reproducer files under all three curves. Clean termination = exit 0 or 1 by itself, last stdout line is the summary, status matches the summary, no `panicked at` / stack overflow / allocation failure / signal; a resource-limit hit is re-run with 4x budget before it counts. Non-trivial = distinct input (content hash) that reached the analysis stage (>= 1 `analyzing` line).",
             assumptions: vec![
                 "modest size: files <= 16 KiB; nesting depth <= 8 in the grammar generators and <= 400 in the nesting-depth domain (a single statement with >= 1000 operators overflowing the stack is recorded separately as a known finding)".into(),
                 "unbounded running is approximated by a CPU budget of 120 s (480 s on re-run; 30 s / 120 s for the nesting-depth inputs, which take about a second), far above the documented 2 x 10 s time box".into(),
